@@ -36,6 +36,31 @@ TRUSTED_BASE = [
 ]
 
 
+GEN_SOURCES = {
+    "Ed25519Arith.lean": ["src/spake2/ed25519_basic.py"],
+    "IntGroupArith.lean": ["src/spake2/groups.py"],
+    "UtilArith.lean": ["src/spake2/util.py"],
+    "Consts.lean": ["src/spake2/spake2.py", "src/spake2/params.py", "src/spake2/ed25519_group.py", "src/spake2/parameters/ed25519.py",
+                    "src/spake2/parameters/i1024.py", "src/spake2/parameters/i2048.py", "src/spake2/parameters/i3072.py", "src/spake2/parameters/all.py"],
+}
+GEN_DIR = os.path.join(LEAN, "Spake2Model", "Gen")
+PIN_DIR = os.path.join(LEAN, "GenPinned")
+
+
+def gen_differs_from_pinned(g):
+    try:
+        return open(os.path.join(GEN_DIR, g)).read() != open(os.path.join(PIN_DIR, g)).read()
+    except OSError:
+        return True
+
+
+def restore_pinned(g):
+    """put back the pinned (last proved, committed) translation of one generated file"""
+    import shutil
+    if gen_differs_from_pinned(g) and os.path.exists(os.path.join(PIN_DIR, g)):
+        shutil.copy2(os.path.join(PIN_DIR, g), os.path.join(GEN_DIR, g))
+
+
 def sh(cmd, cwd=None, timeout=3600, env=None):
     p = subprocess.run(cmd, cwd=cwd, stdout=subprocess.PIPE, stderr=subprocess.STDOUT, timeout=timeout, env=env)
     return p.returncode, p.stdout.decode(errors="replace")
@@ -139,31 +164,76 @@ def main():
     log = []
 
     # ---- 1. Tie A: regenerate -------------------------------------------------------
+    anchors = set()
+    for l in open(os.path.join(VERIF, "properties.jsonl")):
+        pj = json.loads(l)
+        if pj["id"] == prop:
+            anchors = set(pj["anchors"]["files"])
+    degraded = []     # Tie A obligations outside this property's anchors that fell back to the pinned model
     with Lock():
         rc, out = sh([sys.executable if os.path.exists("/venv/bin/python") else "python3", os.path.join(VERIF, "tools", "py2lean.py")])
-        obligations += 1
         gen_report = {}
         try:
             gen_report = json.loads(out)
         except Exception:
             pass
-        if rc != 0:
-            broken.append({"kind": "translation", "name": "tools/py2lean.py", "detail": "; ".join(gen_report.get("errors", [out[-400:]]))})
-        else:
-            discharged += 1
+        # one translation obligation per generated file; it belongs to this property iff the property is
+        # anchored in one of the file's sources.  Elsewhere a failed translation leaves the pinned
+        # (last proved) model in place and the tie falls back to the correspondence check (Tie B).
+        terr = {}
+        for e in gen_report.get("errors", [] if rc == 0 else ["Ed25519Arith.lean: " + out[-300:]]):
+            terr.setdefault(e.split(":", 1)[0], []).append(e)
+        for g, srcs in GEN_SOURCES.items():
+            mine = bool(set(srcs) & anchors)
+            if mine:
+                obligations += 1
+            if g in terr:
+                if mine:
+                    broken.append({"kind": "translation", "name": "tools/py2lean.py " + g, "detail": "; ".join(terr[g])})
+                else:
+                    degraded.append("translation of %s failed (%s); not an anchor of %s: pinned model + correspondence used" % (g, terr[g][0][:160], prop))
+                restore_pinned(g)
+            elif mine:
+                discharged += 1
         # ---- 2. build ---------------------------------------------------------------
         module = "Spake2Verif.Properties." + prop
         thms = theorems_of(prop)
         have_props = os.path.exists(os.path.join(LEAN, "Spake2Verif", "Properties", prop + ".lean"))
-        rc_d, out_d = sh(["lake", "build", "driver"], cwd=LEAN, timeout=3000)
+
+        def build_all():
+            rc_d, out_d = sh(["lake", "build", "driver"], cwd=LEAN, timeout=3000)
+            rc_p, out_p = (sh(["lake", "build", module], cwd=LEAN, timeout=3000) if have_props and rc_d == 0 else (rc_d, out_d))
+            return rc_d, out_d, rc_p, out_p
+        rc_d, out_d, rc_p, out_p = build_all()
+        if (rc_d != 0 or rc_p != 0):
+            # does the failure come from generated code (or proofs about it) whose source is not an anchor?
+            failing = set(m.group(1) for m in re.finditer(r"error: (\S+?\.lean):\d+:\d+", out_d + out_p))
+            blame = set()
+            for f in failing:
+                mod = f[:-5].replace("/", ".")
+                for dep in imports_closure(mod) | {mod}:
+                    if dep.startswith("Spake2Model.Gen."):
+                        blame.add(dep.split(".")[-1] + ".lean")
+            foreign = [g for g in blame if not (set(GEN_SOURCES.get(g, [])) & anchors) and gen_differs_from_pinned(g)]
+            if foreign and not any(set(GEN_SOURCES.get(g, [])) & anchors and gen_differs_from_pinned(g) for g in blame):
+                for g in foreign:
+                    restore_pinned(g)
+                    degraded.append("proofs about regenerated %s no longer check; not an anchor of %s: pinned model + correspondence used" % (g, prop))
+                rc_d, out_d, rc_p, out_p = build_all()
         model_ok = rc_d == 0
         if not model_ok:
             m = re.search(r"error: (\S+?):(\d+):\d+: (.*)", out_d)
             broken.append({"kind": "build", "name": "model/driver" + (" (%s)" % m.group(1) if m else ""),
                            "detail": (m.group(0) if m else out_d[-400:])[:400]})
+        else:
+            # private copy of the driver: a concurrent check may rebuild the shared binary
+            import shutil
+            priv = os.path.join(VERIF, "work", "driver.%s.%d" % (prop, os.getpid()))
+            os.makedirs(os.path.dirname(priv), exist_ok=True)
+            shutil.copy2(engine.DRIVER, priv)
+            engine.DRIVER = priv
         proof_ok = False
-        if have_props:
-            rc_p, out_p = sh(["lake", "build", module], cwd=LEAN, timeout=3000)
+        if have_props and model_ok:
             proof_ok = rc_p == 0
             if not proof_ok:
                 failed = []
@@ -304,6 +374,7 @@ def main():
             "samples": res.samples or [{"note": "no scenarios"}],
             "search_failures": len(res.failures), "known_finding_inputs": res.known,
             "broken_obligations": [{k: v for k, v in b.items() if k != "lines"} for b in broken],
+            "tie_a_fallbacks": degraded,
         },
         "assumptions": TRUSTED_BASE[3:],
         "wall_s": round(wall, 2), "violations": len(violations),
@@ -311,6 +382,13 @@ def main():
     os.makedirs(os.path.join(VERIF, "evidence"), exist_ok=True)
     with open(os.path.join(VERIF, "evidence", prop + ".json"), "w") as f:
         json.dump(ev, f, indent=1)
+    for dg in degraded:
+        print("note: " + dg)
+    if engine.DRIVER.startswith(os.path.join(VERIF, "work")):
+        try:
+            os.unlink(engine.DRIVER)
+        except OSError:
+            pass
     for l in log:
         print(l)
     print("%s tier=%s seed=%d: obligations %d/%d, %d scenarios, %d op lines, %d disagreements, %d failing inputs, %.1fs" % (
